@@ -9,6 +9,9 @@ mod out;
 mod prng;
 mod spec;
 mod stree;
+mod capture;
+mod corp;
+mod corp_gen;
 mod props;
 
 use std::collections::HashMap;
